@@ -723,6 +723,7 @@ pub trait Runner: Sync + Send {
     fn elem_size(&self) -> usize;
     fn elem_align(&self) -> usize;
     fn has_drop(&self) -> bool;
+    fn tracked(&self) -> bool;
     fn backend(&self) -> BK;
     fn backend_name(&self) -> String;
     fn traits_name(&self) -> &'static str;
@@ -753,6 +754,7 @@ impl<T: Elem + SatisfyTraits<Tr>, M: MX, Tr: TrX + ?Sized> Runner for Cfg<T, M, 
     fn elem_size(&self) -> usize { T::SIZE }
     fn elem_align(&self) -> usize { T::ALIGN }
     fn has_drop(&self) -> bool { T::HAS_DROP }
+    fn tracked(&self) -> bool { T::TRACKED }
     fn backend(&self) -> BK { M::KIND }
     fn backend_name(&self) -> String { M::name() }
     fn traits_name(&self) -> &'static str { Tr::name() }
